@@ -28,7 +28,7 @@ ASSUMPTIONS = ['ambiguity oracle: CPython zoneinfo with PEP 495 fold; tz databas
                'abbreviation and numeric-offset renderings are judged only for "never a different instant" (the library documents that abbreviations need '
                'support_abbreviations(), unavailable with the zoneinfo shim)']
 REQUIRED = ['roundtrip:zone-name:same', 'roundtrip:utc:same', 'ambiguous:seen', 'ambiguous:rejected', 'order:pairs', 'order:equal-renderings',
-            'duration:roundtrip', 'render:rounds-up-into-next-second', 'instants:pre-1970', 'mode:abbrev:rejected', 'transitions:used',
+            'duration:roundtrip', 'render:rounds-up-into-next-second', 'instants:pre-1970', 'mode:abbrev:rejected', 'transitions:used', 'instants:one-ulp-from-transition',
             'duration:branch:fraction', 'duration:branch:us', 'duration:branch:ms', 'duration:branch:zero', 'duration:branch:s-only']
 TIMEOUT = {'quick': 300, 'thorough': 2400}
 SOFT = {'quick': 35, 'thorough': 600}
@@ -127,7 +127,9 @@ class Mon:
         wit['text'] = text
         v = round(t, p) if p else t          # what the text denotes (the library rounds to the precision first)
         if p == 0:
-            v = math.floor(t)                # %S of the instant: whole seconds, fraction dropped
+            # %S of the instant: whole seconds, fraction dropped -- of the instant as a datetime can hold it, i.e. rounded to
+            # microseconds first (an instant less than half a microsecond before a whole second IS that second for datetime)
+            v = math.floor(round(t, 6))
         if math.floor(round(t, p) if p else t) > math.floor(t):
             ctx.count('render:rounds-up-into-next-second')
         if t < 0:
@@ -299,6 +301,13 @@ def run(ctx):
             trans = rng.sample(trans, 24)
         for T in trans:
             ctx.count('transitions:used')
+            # the last representable instants before the transition (and the first after): a fraction that any rounding to
+            # microseconds carries into the second in which the offset changes
+            for t in (math.nextafter(T, -math.inf), T - 4e-7, math.nextafter(T, math.inf), math.nextafter(T + 3600, -math.inf), math.nextafter(T - 3600, -math.inf)):
+                for p in (0, 6, 3):
+                    mon.render_parse(t, zone, p, 'zone-name')
+                mon.render_parse(t, zone, 0, 'offset')
+                ctx.count('instants:one-ulp-from-transition')
             for d in DELTAS:
                 t = T + d
                 for p in precisions:
